@@ -17,7 +17,7 @@ func init() {
 	register("C10", checkC10)
 	describe("C10", Meta{
 		Technique: "ownership rule over resolved field objects (who may store to the topology fields), block-level pairing of Internal_inputs/Links size changes and of port counters with their endpoint lists, and index-space inference (INDEXKIND) inside every topology editor",
-		Claim:     "Decides structural clauses of C10: (a) only methods of Bondmachine (through their receiver) or code building a freshly allocated machine store to Links / Internal_inputs / Internal_outputs / Inputs / Outputs / Processors / Shared_links; (b) every block that grows, shrinks or replaces Internal_inputs does the same to Links (one link slot per internal input); (c) inside the editors, values stored into Links are internal-output indices and comparisons relate indices of one space; (d) the Inputs/Outputs counters change together with the endpoint lists. Necessary conditions for well-formedness after edits; that the right element is removed and the renumbering arithmetic are not decided.",
+		Claim:     "Decides structural clauses of C10: (a) only methods of Bondmachine (through their receiver) or code building a freshly allocated machine store to Links / Internal_inputs / Internal_outputs / Inputs / Outputs / Processors / Shared_links; (b) every block that grows, shrinks or replaces Internal_inputs does the same to Links (one link slot per internal input); (c) inside the editors, values stored into Links are internal-output indices and comparisons relate indices of one space; (d) the Inputs/Outputs counters change together with the endpoint lists; (e) DERIVED: any other field of Bondmachine that is filled with positions in Internal_inputs/Internal_outputs is refreshed or invalidated by every method that stores to that list. Necessary conditions for well-formedness after edits; that the right element is removed and the renumbering arithmetic are not decided.",
 		Note:      "Flow-insensitive within a block; 'fresh' means the machine variable is initialised with new(Bondmachine)/&Bondmachine{}/a Bondmachine value in the same function.",
 		DesignRef: "DESIGN.md §2 C10",
 	})
@@ -355,6 +355,8 @@ func checkC10(r *core.Run) {
 	r.Count("functions_storing_topology", nFuncs)
 	r.Count("topology_stores", nStores)
 
+	c10Derived(r, prog, bm, st)
+
 	// (c) index kinds inside the editors
 	e := newIKEngine(r, prog, "C10")
 	e.run([]string{"pkg/bondmachine", "cmd/bondmachine", "pkg/bmbuilder", "pkg/bondgo", "pkg/basm"}, func(pk *packages.Package, fd *ast.FuncDecl) bool { return e.storesTopology(pk, fd) })
@@ -450,4 +452,233 @@ func bondMapTo(info *types.Info, fd *ast.FuncDecl, e ast.Expr) (int64, bool) {
 		return constant.Int64Val(constant.ToInt(tv.Value))
 	}
 	return 0, false
+}
+
+
+// c10Derived (C10/DERIVED): a field of Bondmachine, other than the topology itself, that is filled
+// with positions in Internal_inputs / Internal_outputs (a range key or len-bounded counter over the
+// list is stored into it) is a derived index of that list. Every method that stores to the list
+// (append, rebuild, reslice) must refresh or invalidate the derived field in the same call (directly
+// or through a method it calls on the same machine); otherwise the next lookup hands out positions of
+// the list as it was, and Add_bond / the walkers join other endpoints than the ones named.
+func c10Derived(r *core.Run, prog *core.Program, bm *packages.Package, st *types.Struct) {
+	info := bm.TypesInfo
+	isBMField := func(v *types.Var) bool {
+		if v == nil {
+			return false
+		}
+		for i := 0; i < st.NumFields(); i++ {
+			if st.Field(i) == v {
+				return true
+			}
+		}
+		return false
+	}
+	lists := map[string]bool{"Internal_inputs": true, "Internal_outputs": true}
+	// 1. discover derived fields: F[...] = k / F = append(F, k) / F[k] = ... where k counts positions of a list
+	derived := map[*types.Var]string{} // field -> list name
+	where := map[*types.Var]token.Pos{}
+	core.FuncDecls(bm, func(_ *ast.File, fd *ast.FuncDecl) {
+		posVar := map[types.Object]string{}
+		ast.Inspect(fd.Body, func(n ast.Node) bool {
+			switch x := n.(type) {
+			case *ast.RangeStmt:
+				if f := core.FieldOf(info, x.X); f != nil && isBMField(f) && lists[f.Name()] {
+					if id, ok := x.Key.(*ast.Ident); ok && id.Name != "_" {
+						posVar[info.ObjectOf(id)] = f.Name()
+					}
+				}
+			case *ast.ForStmt:
+				if be, ok := x.Cond.(*ast.BinaryExpr); ok && be.Op == token.LSS {
+					if call, ok := ast.Unparen(be.Y).(*ast.CallExpr); ok && len(call.Args) == 1 {
+						if id, ok := call.Fun.(*ast.Ident); ok && id.Name == "len" {
+							if f := core.FieldOf(info, call.Args[0]); f != nil && isBMField(f) && lists[f.Name()] {
+								if v, ok := ast.Unparen(be.X).(*ast.Ident); ok {
+									posVar[info.ObjectOf(v)] = f.Name()
+								}
+							}
+						}
+					}
+				}
+			}
+			return true
+		})
+		if len(posVar) == 0 {
+			return
+		}
+		mentionsPos := func(e ast.Expr) string {
+			l := ""
+			ast.Inspect(e, func(k ast.Node) bool {
+				if id, ok := k.(*ast.Ident); ok {
+					if ln, ok := posVar[info.ObjectOf(id)]; ok {
+						l = ln
+					}
+				}
+				return true
+			})
+			return l
+		}
+		ast.Inspect(fd.Body, func(n ast.Node) bool {
+			as, ok := n.(*ast.AssignStmt)
+			if !ok || len(as.Lhs) != len(as.Rhs) {
+				return true
+			}
+			for i, l := range as.Lhs {
+				var f *types.Var
+				var key ast.Expr
+				switch lx := ast.Unparen(l).(type) {
+				case *ast.IndexExpr:
+					f, key = core.FieldOf(info, lx.X), lx.Index
+				case *ast.SelectorExpr:
+					f = core.FieldOf(info, lx)
+				}
+				if f == nil || !isBMField(f) || topoFields[f.Name()] {
+					continue
+				}
+				// only int-valued / int-keyed containers carry positions
+				ln := ""
+				if b, ok := info.TypeOf(as.Rhs[i]).Underlying().(*types.Basic); ok && b.Info()&types.IsInteger != 0 {
+					ln = mentionsPos(as.Rhs[i])
+				}
+				if ln == "" && key != nil {
+					if b, ok := info.TypeOf(key).Underlying().(*types.Basic); ok && b.Info()&types.IsInteger != 0 {
+						ln = mentionsPos(key)
+					}
+				}
+				if ln == "" {
+					if call, ok := as.Rhs[i].(*ast.CallExpr); ok {
+						if id, ok := call.Fun.(*ast.Ident); ok && id.Name == "append" {
+							for _, a := range call.Args[1:] {
+								if b, ok := info.TypeOf(a).Underlying().(*types.Basic); ok && b.Info()&types.IsInteger != 0 && ln == "" {
+									ln = mentionsPos(a)
+								}
+							}
+						}
+					}
+				}
+				if ln != "" {
+					if _, dup := derived[f]; !dup {
+						derived[f] = ln
+						where[f] = as.Pos()
+					}
+				}
+			}
+			return true
+		})
+	})
+	r.Count("derived_index_fields", len(derived))
+	if len(derived) == 0 {
+		return
+	}
+	// 2. per method of Bondmachine: fields stored (directly), methods of the same receiver called
+	type minfo struct {
+		fd     *ast.FuncDecl
+		stores map[*types.Var]token.Pos
+		calls  []*types.Func
+	}
+	methods := map[*types.Func]*minfo{}
+	core.FuncDecls(bm, func(_ *ast.File, fd *ast.FuncDecl) {
+		if core.RecvTypeName(info, fd) != "Bondmachine" {
+			return
+		}
+		fn, _ := info.Defs[fd.Name].(*types.Func)
+		if fn == nil {
+			return
+		}
+		mi := &minfo{fd: fd, stores: map[*types.Var]token.Pos{}}
+		methods[fn] = mi
+		var recvObj types.Object
+		if len(fd.Recv.List) > 0 && len(fd.Recv.List[0].Names) > 0 {
+			recvObj = info.ObjectOf(fd.Recv.List[0].Names[0])
+		}
+		onRecv := func(e ast.Expr) bool {
+			id, ok := ast.Unparen(e).(*ast.Ident)
+			return ok && recvObj != nil && info.ObjectOf(id) == recvObj
+		}
+		ast.Inspect(fd.Body, func(n ast.Node) bool {
+			switch x := n.(type) {
+			case *ast.AssignStmt:
+				for _, l := range x.Lhs {
+					e := ast.Unparen(l)
+					if ie, ok := e.(*ast.IndexExpr); ok {
+						e = ast.Unparen(ie.X)
+					}
+					if sel, ok := e.(*ast.SelectorExpr); ok && onRecv(sel.X) {
+						if f := core.FieldOf(info, sel); f != nil {
+							if _, dup := mi.stores[f]; !dup {
+								mi.stores[f] = x.Pos()
+							}
+						}
+					}
+				}
+			case *ast.CallExpr:
+				if id, ok := x.Fun.(*ast.Ident); ok && (id.Name == "delete" || id.Name == "clear") && len(x.Args) >= 1 {
+					if sel, ok := ast.Unparen(x.Args[0]).(*ast.SelectorExpr); ok && onRecv(sel.X) {
+						if f := core.FieldOf(info, sel); f != nil {
+							if _, dup := mi.stores[f]; !dup {
+								mi.stores[f] = x.Pos()
+							}
+						}
+					}
+				}
+				if sel, ok := x.Fun.(*ast.SelectorExpr); ok && onRecv(sel.X) {
+					if c, ok := core.CalleeOf(info, x).(*types.Func); ok {
+						mi.calls = append(mi.calls, c)
+					}
+				}
+			}
+			return true
+		})
+	})
+	var touches func(fn *types.Func, f *types.Var, seen map[*types.Func]bool) bool
+	touches = func(fn *types.Func, f *types.Var, seen map[*types.Func]bool) bool {
+		mi := methods[fn]
+		if mi == nil || seen[fn] {
+			return false
+		}
+		seen[fn] = true
+		if _, ok := mi.stores[f]; ok {
+			return true
+		}
+		for _, c := range mi.calls {
+			if touches(c, f, seen) {
+				return true
+			}
+		}
+		return false
+	}
+	var fns []*types.Func
+	for fn := range methods {
+		fns = append(fns, fn)
+	}
+	sort.Slice(fns, func(i, j int) bool { return fns[i].Name() < fns[j].Name() })
+	var dfs []*types.Var
+	for f := range derived {
+		dfs = append(dfs, f)
+	}
+	sort.Slice(dfs, func(i, j int) bool { return dfs[i].Name() < dfs[j].Name() })
+	n := 0
+	for _, f := range dfs {
+		ln := derived[f]
+		for _, fn := range fns {
+			mi := methods[fn]
+			var lpos token.Pos
+			for sf, p := range mi.stores {
+				if sf.Name() == ln && isBMField(sf) {
+					lpos = p
+				}
+			}
+			if !lpos.IsValid() {
+				continue
+			}
+			n++
+			inst := fmt.Sprintf("C10/DERIVED:%s:Bondmachine.%s", f.Name(), fn.Name())
+			if touches(fn, f, map[*types.Func]bool{}) {
+				r.OK("C10/DERIVED", inst, prog.Pos(lpos), fmt.Sprintf("the editor changes %s and refreshes the derived index %s", ln, f.Name()))
+			} else {
+				r.Violation("C10/DERIVED", inst, prog.Pos(lpos), fmt.Sprintf("Bondmachine.%s is filled with positions in %s (at %s), and Bondmachine.%s stores to %s without refreshing or invalidating it: after this edit the field still holds positions of the list as it was, so the next lookup through it addresses other endpoints than the ones named (a bond is added to, or a walk follows, the wrong output)", f.Name(), ln, r.Rel(prog.Pos(where[f])), fn.Name(), ln))
+			}
+		}
+	}
+	r.Count("derived_index_refresh_obligations", n)
 }
